@@ -74,18 +74,23 @@ fn digits(rng: &mut Rng, max: u64) -> Option<String> {
         1 => Some(format!("{}", 1 + rng.below(9))),
         2 => Some(format!("0{}", rng.below(max))),            // leading zero
         3 => Some(format!("{}", rng.below(max))),
-        _ => Some(format!("{}", rng.below(30))),
+        _ => Some(format!("{}", rng.below(max.min(30)))),
     }
 }
 
 pub fn gen_items(rng: &mut Rng, syms: &[String], depth: u32, max_items: u64) -> Vec<Item> { gen_items_w(rng, syms, depth, max_items, false) }
 pub fn gen_items_w(rng: &mut Rng, syms: &[String], depth: u32, max_items: u64, wild: bool) -> Vec<Item> {
+    // keep every per-key total inside i32: deep nesting gets small counts (300 * 9^5 < 2^31 / 100)
+    let (emax, gmax) = if depth >= 4 { (300, 9) } else { (5000, 20) };
+    gen_items_c(rng, syms, depth, max_items, wild, emax, gmax)
+}
+fn gen_items_c(rng: &mut Rng, syms: &[String], depth: u32, max_items: u64, wild: bool, emax: u64, gmax: u64) -> Vec<Item> {
     let n = 1 + rng.below(max_items);
     let mut v = Vec::new();
     for _ in 0..n {
         if depth > 0 && rng.chance(1, 4) {
-            let body = gen_items_w(rng, syms, depth - 1, 3, wild);
-            v.push(Item::Gr(body, digits(rng, 20)));
+            let body = gen_items_c(rng, syms, depth - 1, 3, wild, emax, gmax);
+            v.push(Item::Gr(body, digits(rng, gmax)));
         } else {
             // favour a small set so that keys repeat, but reach the whole table
             let sym = if rng.chance(2, 3) { rng.pick(&["C", "H", "O", "N", "S", "Cl", "Na", "H+", "Uuo", "Fe", "Br", "K"]).to_string() } else { rng.pick(syms).clone() };
@@ -96,7 +101,7 @@ pub fn gen_items_w(rng: &mut Rng, syms: &[String], depth: u32, max_items: u64, w
                 let k = if wild && rng.chance(1, 3) { let lo = ks[0].saturating_sub(2) as u64; let hi = *ks.last().unwrap() as u64 + 2; (lo + rng.below(hi - lo + 1)) as u16 } else { *rng.pick(&ks) };
                 Some(if rng.chance(1, 6) { format!("0{}", k) } else { format!("{}", k) })
             } else { None };
-            v.push(Item::El(sym, iso, digits(rng, 5000)));
+            v.push(Item::El(sym, iso, digits(rng, emax)));
         }
     }
     v
